@@ -139,7 +139,9 @@ def g_expected(d):
         c["dbid"], cstr(c["name"]), c["min"], c["max"], "; ".join("%d%%nat" % i for i in c["instr"]), "true" if c["fixed"] else "false",
         "; ".join(cstr(h) for h in c["hidden"]), c["fbits"], c["obits"]) for c in d["courses"])
     q = "None" if d["quality"] is None else "(Some (%d%%nat, [%s]))" % (d["quality"][0], "; ".join("%d%%nat" % x for x in d["quality"][1]))
-    return "(Some ([%s], [%s], %s, (%d)%%Z, (%d)%%Z, %d%%nat))" % (ps, cs, q, d["event_id"], d["track_id"], d["ign_regs"] or 0)
+    nic = d.get("ign_courses")
+    return "(Some ([%s], [%s], %s, (%d)%%Z, (%d)%%Z, %d%%nat, %s))" % (ps, cs, q, d["event_id"], d["track_id"], d["ign_regs"] or 0,
+                                                                  "None" if nic is None else "(Some %d%%nat)" % nic)
 
 
 def g_opts(track, ic, ia):
@@ -304,11 +306,13 @@ def e2e_cases(ctx, seed, count, binpath, opts_fn=None, dense_assign=True, thread
                 args += rargs
                 rinfo = {"rooms_arg": rarg, "field": rfield, "ff": "rf" if "--room-factor-field" in ffof else None,
                          "of": "ro" if "--room-offset-field" in ffof else None}
-            tasks.append((ex, track, ic, ia, args + [ex["file"], outp], outp, rinfo))
+            ffname = "rf" if "--room-factor-field" in ffof else None
+            ofname = "ro" if "--room-offset-field" in ffof else None
+            tasks.append((ex, track, ic, ia, args + [ex["file"], outp], outp, rinfo, (ffname, ofname)))
     from concurrent.futures import ThreadPoolExecutor
 
     def work(t):
-        ex, track, ic, ia, args, outp, rinfo = t
+        ex, track, ic, ia, args, outp, rinfo, _ffof = t
         run = clirun.run_bin(binpath, args)
         return run
 
@@ -316,7 +320,8 @@ def e2e_cases(ctx, seed, count, binpath, opts_fn=None, dense_assign=True, thread
         runs = list(exr.map(work, tasks))
     recs, texts = [], []
     rtexts, ridx = [], []
-    for (ex, track, ic, ia, args, outp, rinfo), run in zip(tasks, runs):
+    dtexts, didx = [], []
+    for (ex, track, ic, ia, args, outp, rinfo, (ffname, ofname)), run in zip(tasks, runs):
         lists = None
         problem = None
         dfile = None
@@ -338,6 +343,11 @@ def e2e_cases(ctx, seed, count, binpath, opts_fn=None, dense_assign=True, thread
         recs.append({"export_file": ex["file"], "export": ex["export"], "track": track, "ignore_cancelled": ic, "ignore_assigned": ia, "args": args,
                      "exit": run["rc"], "timeout": run["timeout"], "stderr": run["stderr"][-400:], "import": dfile if isinstance(dfile, dict) else None,
                      "lists": lists, "problem": problem, "panicked": "panicked" in run["stderr"], "rooms": rinfo})
+        if isinstance(dfile, dict):
+            # the whole document (CorrDoc.check_cde_doc)
+            dtexts.append("(%s, %s, %s, %s, %s, %s, %s)" % (coq(ex["export"]), g_opts(track, ic, ia), g_field(ffname), g_field(ofname),
+                                                           g_rooms_arg(rinfo["rooms_arg"] if rinfo else None), g_field(rinfo["field"] if rinfo else None), coq(dfile)))
+            didx.append(len(recs) - 1)
         if rinfo is not None and lists is not None and isinstance(dfile, dict):
             # the possible-rooms field as written: course id -> string (None when some course carries no such field)
             fvals = None
@@ -359,4 +369,9 @@ def e2e_cases(ctx, seed, count, binpath, opts_fn=None, dense_assign=True, thread
                             header="Require Import Json Cde CorrCde CorrCdeRooms.\nOpen Scope string_scope.\nOpen Scope list_scope.")
         for i, c in zip(ridx, rcodes):
             recs[i]["rooms_code"] = c
+    if dtexts:
+        dcodes = eval_cases(ctx, "cdedoc", "cde_doc_case", "check_cde_doc", dtexts,
+                            header="Require Import Json Cde CorrCde CorrCdeRooms CorrDoc.\nOpen Scope string_scope.\nOpen Scope list_scope.")
+        for i, c in zip(didx, dcodes):
+            recs[i]["doc_code"] = c
     return recs
